@@ -443,6 +443,16 @@ func Deviations() []Dev {
 			}
 		})
 	}
+	add("comment-line-after-posting", "first, text", func(j *Journal) {
+		if p := p0(j); p != nil {
+			p.After = []Comment{{Text: " about the posting"}}
+		}
+	})
+	add("comment-line-after-posting", "last, tag", func(j *Journal) {
+		if p := p1(j); p != nil {
+			p.After = []Comment{{Text: " seen:yes", Tags: []Tag{{"seen", "yes"}}}}
+		}
+	})
 	add("last-posting-comment", "tag", func(j *Journal) {
 		if p := p1(j); p != nil {
 			p.Comment = &Comment{Text: " k:v", Tags: []Tag{{"k", "v"}}}
